@@ -7,6 +7,8 @@
 //	                                           cmd/node/config/config.toml and the messenger's send limit
 //	vh-bodysize replay <behaviours.ndjson>     TLC behaviours (New, Add...) -> real estimator + real marshalled body
 //	vh-bodysize record <seed> <traces> <out>   random proposer loops on the real estimator -> trace for Trace_BodySize
+//	vh-bodysize throttle-replay <file> / throttle-record <seed> <traces> <len> <out>   the same for specs/BodySize/Throttle.tla
+//	                                           and the real process/throttle.blockSizeThrottle (see throttle.go)
 //
 // No model logic here: counts (incl. the boundary fill counts), predicted answers and sizes come from TLA+; the
 // property itself (estimator said "fits" and the marshalled body is not sendable) is evaluated on real numbers by
@@ -149,7 +151,7 @@ type outcome struct {
 	maxBody    int
 }
 
-func replayOne(b []vtrace.Step, realNet int) (o outcome) {
+func replayOne(b []vtrace.Step, realNet int, useMaxTxs int) (o outcome) {
 	if len(b) == 0 || b[0].A != "New" {
 		o.drift = "behaviour does not start with New"
 		return
@@ -157,7 +159,7 @@ func replayOne(b []vtrace.Step, realNet int) (o outcome) {
 	c := b[0].In
 	hashLen := vtrace.Int(c["hashLen"])
 	e := newEstimator(uint32(vtrace.Int(c["maxSize"])), uint32(vtrace.Int(c["curMax"])))
-	if e.MaxTransactionsInOneMiniblock() != vtrace.Int(b[0].Out["maxTxs"]) {
+	if vtrace.Int(b[0].Out["maxTxs"]) != useMaxTxs {
 		o.skipped = true
 		return
 	}
@@ -226,6 +228,21 @@ func replay(path string) {
 	behs, err := vtrace.ReadBehaviours(path)
 	must(err)
 	_, _, realNet := realConfig()
+	// the calibration dummy is not observable; MaxTransactionsInOneMiniblock() tells which modelled calibration the real
+	// code has. Behaviours generated for the other calibration are skipped. If none matches, the first behaviour's
+	// calibration is used anyway: predictions then drift, but the property is still decided on the real numbers.
+	useMaxTxs, matched := 0, false
+	if len(behs) > 0 && len(behs[0]) > 0 {
+		c := behs[0][0].In
+		realMaxTxs := newEstimator(uint32(vtrace.Int(c["maxSize"])), uint32(vtrace.Int(c["curMax"]))).MaxTransactionsInOneMiniblock()
+		useMaxTxs = vtrace.Int(behs[0][0].Out["maxTxs"])
+		for _, b := range behs {
+			if len(b) > 0 && vtrace.Int(b[0].Out["maxTxs"]) == realMaxTxs {
+				useMaxTxs, matched = realMaxTxs, true
+				break
+			}
+		}
+	}
 	outs := make([]outcome, len(behs))
 	var wg sync.WaitGroup
 	ch := make(chan int, 256)
@@ -234,7 +251,7 @@ func replay(path string) {
 		go func() {
 			defer wg.Done()
 			for i := range ch {
-				outs[i] = replayOne(behs[i], realNet)
+				outs[i] = replayOne(behs[i], realNet, useMaxTxs)
 			}
 		}()
 	}
@@ -277,7 +294,7 @@ func replay(path string) {
 			vtrace.Sample(prop, o.sample)
 		}
 	}
-	if used == 0 && len(behs) > 0 {
+	if !matched && len(behs) > 0 {
 		vtrace.Drift(prop, "the real calibration (MaxTransactionsInOneMiniblock) matches none of the modelled calibrations", nil)
 	}
 	if samples == 0 && len(behs) > 0 {
@@ -398,6 +415,17 @@ func main() {
 		seed, _ := strconv.ParseInt(os.Args[2], 10, 64)
 		n, _ := strconv.Atoi(os.Args[3])
 		record(seed, n, os.Args[4])
+		return
+	}
+	if len(os.Args) >= 3 && os.Args[1] == "throttle-replay" {
+		throttleReplay(os.Args[2])
+		return
+	}
+	if len(os.Args) >= 6 && os.Args[1] == "throttle-record" {
+		seed, _ := strconv.ParseInt(os.Args[2], 10, 64)
+		n, _ := strconv.Atoi(os.Args[3])
+		l, _ := strconv.Atoi(os.Args[4])
+		throttleRecord(seed, n, l, os.Args[5])
 		return
 	}
 	fmt.Fprintln(os.Stderr, "usage: vh-bodysize config | replay <file> | record <seed> <traces> <out>")
